@@ -135,7 +135,7 @@ def e3_task(payload):
         st = judge(spec, tag[1], res)
         if st:
             structures.append(st)
-            d = check.digest([spec['tag'], spec['K'], spec.get('assignment'), spec.get('real_pool', False)])
+            d = check.digest([spec['tag'], spec['K'], spec.get('assignment'), spec.get('real_pool', False), [b['K'] for b in spec.get('before') or []]])
             res['states'].append(d)
             if spec.get('assignment') and max(spec['assignment']) > 0 and len(spec['assignment']) > len(set(spec['assignment'])):
                 res['nontrivial'].append(d)      # several workers AND several tasks on one worker
@@ -172,6 +172,14 @@ def plan(tier, seed):
         specs = [{'tag': tag, 'base': base, 'inputs': inputs, 'outputs': OUTPUTS, 'K': K, 'assignment': a, 'seed': seed} for a in poolx.set_partitions(K, 2)]
         for i in range(0, len(specs), 4):
             P.append({'kind': 'e3', 'specs': specs[i:i + 4]})
+    # a process that has already served another Monte-Carlo request (1 or 2 iterations) before the one that is judged
+    for pk in (1, 2):
+        prior = {'tag': 'prior', 'base': 'elec', 'inputs': SETTINGS['uniform'], 'outputs': OUTPUTS, 'K': pk, 'assignment': [0] * pk, 'seed': seed}
+        K = Ks[-1]
+        specs = [{'tag': 'mix', 'base': 'elec', 'inputs': SETTINGS['mix'], 'outputs': OUTPUTS, 'K': K, 'assignment': a, 'seed': seed, 'before': [prior]}
+                 for a in poolx.set_partitions(K, W)]
+        for i in range(0, len(specs), 4):
+            P.append({'kind': 'e3', 'specs': specs[i:i + 4]})
     # conformance of the controlled pool: free-running real pool
     for rep in range(2 if tier == 'quick' else 5):
         P.append({'kind': 'e3', 'specs': [{'tag': 'mix', 'base': 'elec', 'inputs': SETTINGS['mix'], 'outputs': OUTPUTS, 'K': 6,
@@ -194,7 +202,7 @@ def run(tier, seed, budget=None):
         sys.modules[__name__], PID, tier, seed, budget,
         rule=('E3: real Monte-Carlo main() under a fork-faithful controlled pool for every settings file in {normal, uniform, triangular, '
               'lognormal, binomial(+uniform), a 1e-8-wide uniform, mix of five, three with "#" for the mean/mode} x K iterations x ALL assignments of iterations to <=W workers (set partitions; '
-              'quick K in {3,4}, W=3; thorough K in {4,5,6}, W=4); E4: all interleavings of the real pylocker row-append protocol for 2 '
+              'quick K in {3,4}, W=3; thorough K in {4,5,6}, W=4), also in a process that already served a 1- or 2-iteration request; E4: all interleavings of the real pylocker row-append protocol for 2 '
               'workers up to 3 preemptions (thorough: 6, and 3 workers up to 2), with and without a failing iteration; plus free-running real '
               'ProcessPoolExecutor runs. Non-trivial = assignment that uses several workers / interleaving with >=1 preemption; states = '
               'distinct (settings, K, assignment) and (spec, sub-tree, outcome)'),
